@@ -57,7 +57,15 @@ func fopsString(ops []fop) string {
 	return strings.Join(ss, ";")
 }
 
+// applyFop: one FixedSliceWriter call. The writer reports what does not fit through AccError; a run-time panic is a
+// failing input of its own (in corr the FAIL line is no case line: the model side reports it as a mismatch too)
 func applyFop(sw *bits.FixedSliceWriter, o fop) {
+	if p := hx.Try(func() { applyFopRaw(sw, o) }); p != "" {
+		fail("bits.FixedSliceWriter", "panic", fmt.Sprintf("len=%d cap=%d %s", sw.Len(), sw.Capacity(), o.String()), "run-time panic instead of AccError: "+p)
+	}
+}
+
+func applyFopRaw(sw *bits.FixedSliceWriter, o fop) {
 	switch o.k {
 	case "b":
 		sw.WriteBits(uint(o.v), o.w)
